@@ -34,6 +34,8 @@ class PBKDF2SHAHandler(PasswordHasher):
         rounds: int | None = None,
         salt_entropy_bits: int = 128,
     ) -> None:
+        if salt_entropy_bits < 1:
+            raise ValueError("salt_entropy_bits must be at least 1")
         self._rounds = rounds or self.DEFAULT_ROUNDS
         self._salt_entropy_bits = salt_entropy_bits
 
